@@ -5,6 +5,7 @@ package main
 // would re-implement the function under test).
 
 import (
+	"strings"
 	"math/rand"
 	"reflect"
 	"time"
@@ -607,11 +608,51 @@ func auxDocPath(r *rand.Rand, n int, emit func(E), stats map[string]int) {
 		}
 		steps := make([]interface{}, 0)
 		m := 1 + r.Intn(6)
+		forced := ""
 		for s := 0; s < m; s++ {
 			p := paths[r.Intn(len(paths))]
+			if forced != "" {
+				p, forced = forced, ""
+			}
 			// any Go value, supported or not: an unsupported one must leave the document unchanged
 			gv, ga := gg.value(2)
+			own := true // the value is the caller's own (not something Get handed out)
+			if r.Intn(4) == 0 {
+				// a value is a value: a container taken from the document itself (already canonical, nothing to
+				// convert) is stored at a second place, and the step that follows writes below one of the two places
+				for _, q := range []string{"a", "b", "a.b", "x"} {
+					if c := d.Get(q); c != nil && q != p && !strings.HasPrefix(p, q+".") && !strings.HasPrefix(q, p+".") {
+						if av := u.Alpha(c); av[0] == "obj" || av[0] == "arr" {
+							gv, ga, own = c, canonToG(av), false
+							for _, nx := range paths {
+								if strings.HasPrefix(nx, p+".") || strings.HasPrefix(nx, q+".") {
+									forced = nx
+									break
+								}
+							}
+							break
+						}
+					}
+				}
+			}
 			d.Set(p, gv)
+			// ... and the caller goes on using what it passed
+			switch t := gv.(type) {
+			case map[string]interface{}:
+				if !own {
+					break
+				}
+				for k := range t {
+					t[k] = "scribble"
+				}
+				t["scribble"] = int64(1)
+			case []interface{}:
+				for k := range t {
+					if own {
+						t[k] = "scribble"
+					}
+				}
+			}
 			probes := make([]interface{}, 0)
 			for _, q := range paths {
 				has := 0
@@ -629,4 +670,32 @@ func auxDocPath(r *rand.Rand, n int, emit func(E), stats map[string]int) {
 		emit(E{"kind": "docpath", "init": init, "steps": steps})
 		stats["docpath"]++
 	}
+}
+
+// canonToG describes a canonical value (as read from a document) in the vocabulary of Go values of CloverNorm
+func canonToG(v V) V {
+	switch v[0] {
+	case "nil":
+		return V{"nil"}
+	case "num":
+		return V{map[string]string{"i": "int", "u": "uint", "f": "float"}[v[2].(string)], v[1]}
+	case "str":
+		return V{"string", v[1]}
+	case "bool":
+		return V{"bool", v[1]}
+	case "arr":
+		el := make([]interface{}, 0)
+		for _, e := range toList(v[1]) {
+			el = append(el, canonToG(toV(e)))
+		}
+		return V{"slice", el}
+	case "obj":
+		ps := make([]interface{}, 0)
+		for _, p := range toList(v[1]) {
+			pl := toList(p)
+			ps = append(ps, []interface{}{pl[0], canonToG(toV(pl[1]))})
+		}
+		return V{"map", 1, ps}
+	}
+	return v
 }
